@@ -161,6 +161,30 @@ LookbackSuperset ==
         IN LookbackOK(Shard(C, s, L, now), past, C.mem)
               \/ Cex("LookbackSuperset", [size |-> s, L |-> L, lb |-> Shard(C, s, L, now), hist |-> hist])
 
+(***************************************************************************)
+(* Negative controls (MC_neg_*.cfg substitute them; TLC must refute).      *)
+(*  NoZoneExemption     for ZoneChangesExempt: the look-back clause also   *)
+(*     across a change of the set of zones - refuted, which is the         *)
+(*     recorded observation of DESIGN 8.3/8.4 as a reachable state.        *)
+(*  ExtRegOnly          for Ext: a walk that stops at an instance that is  *)
+(*     or recently switched read-only - LookbackSuperset must fail.        *)
+(*  IncAlways           for Inc: a walk that does not pass read-only       *)
+(*     instances - SizeFormula / NoReadOnlyMembers must fail.              *)
+(***************************************************************************)
+NoZoneExemption == FALSE
+ExtRegOnly(c, i, L, t) == L > 0 /\ c.reg[i] >= t - L
+IncAlways(c, i, L, t) == TRUE
+
+(* reachability witnesses for the implication-shaped clauses: TLC must     *)
+(* REFUTE each "never" (MC_wit_*.cfg)                                      *)
+NeverExtended ==     \* the look-back answer is never larger than the plain shard
+    Running => \A s \in Sizes : \A L \in Lookbacks : Shard(C, s, L, now) = Cur[s]
+NeverExhausted ==    \* no zone ever runs out of eligible instances
+    Running => \A s \in Sizes : s = 0 \/ Cardinality(Cur[s]) >= Min2(s, Cardinality(C.mem))
+NeverInconsistentPair ==   \* Consistency is never applicable with a changed shard
+    Running => \A x \in C.mem : LET W == [C EXCEPT !.mem = @ \ {x}]
+                                IN ConsistencyApplies(C, W, C.za) => \A s \in Sizes : Cur[s] = Shard(W, s, 0, now)
+
 (* sanity of the model itself: look-back 0 through the look-back entry is the plain shard *)
 TypeOK == Running => /\ C.mem # {} /\ C.mem \subseteq Universe
                      /\ \A s \in Sizes : Cur[s] = Shard(C, s, 0, now) /\ Cur[s] \subseteq C.mem
